@@ -71,7 +71,9 @@ class Session(object):
         self.k.bind_main()
         if real_dir is None:
             seams.install(self.k, self.os)
+            seams.install_tripwires()
         else:
+            seams.remove_tripwires()
             import random as _r
             import whoosh.util
             self._real_random = whoosh.util.random
@@ -80,6 +82,7 @@ class Session(object):
         self.stats = {}
         self._gc_was = gc.isenabled()
         gc.disable()
+        _quiet_unraisable()
         self.closed = False
 
     def count(self, name, n=1):
@@ -136,6 +139,24 @@ class Session(object):
         p = self.k.new_proc(name)
         self.k.current.proc = p
         return p
+
+
+_orig_unraisable = [None]
+
+
+def _quiet_unraisable():
+    """Finalizers of objects abandoned by an aborted/killed simulated task
+    raise SimAbort/SimKilled from their seam calls: that is the intended
+    effect (a dead process touches nothing), not something to print."""
+    if _orig_unraisable[0] is not None:
+        return
+    _orig_unraisable[0] = sys.unraisablehook
+
+    def hook(u):
+        if isinstance(u.exc_value, (SimAbort, SimKilled)):
+            return
+        _orig_unraisable[0](u)
+    sys.unraisablehook = hook
 
 
 def find_docnum(reader, uid):
